@@ -198,6 +198,24 @@ control("C17", "ConvertToCurrent converts in the wrong direction",
         [(USM, "        converted_value = unit_database.Convert(category, unit, to_unit, value)", "        converted_value = unit_database.Convert(category, to_unit, unit, value)")], "C17.R7")
 control("C17", "a query method replaces the current system",
         [(USM, "        result = self._current\n\n        if result is None:", "        result = self._current\n\n        if result is None and self._unit_systems:\n            self._current = result = next(iter(self._unit_systems.values()))\n        if result is None:")], "C17.R1")
+# ------------------------------------------------------------------------------------------ C10
+control("C10", "zip length guard removed (fix reverted)",
+        [(VG, "            if len(self.p1) != len(self.p2):\n                raise ValueError(\n                    \"Operands have different lengths: %d != %d\" % (len(self.p1), len(self.p2))\n                )\n", "")], "C10.R2")
+control("C10", "empty-operand fix reverted (q only assigned in the loop)",
+        [(AR, "            q = None\n            for v0, v1 in values_iteration:", "            for v0, v1 in values_iteration:"),
+         (AR, "            if q is None:\n                # no elements: the resulting quantity does not depend on the values\n                q, _ = operation_func(q1, q2, 1.0, 1.0)\n", "")], "C10.R3")
+control("C10", "FromScalars takes raw values of the remaining scalars",
+        [(AR, "[scalar.GetValue(unit) for scalar in scalars]", "[scalar.value for scalar in scalars]")], "C10.R5")
+control("C10", "IsTuple always true",
+        [(VG, "            return isinstance(self.p1, tuple) and isinstance(self.p2, tuple)", "            return True")], "C10.R4")
+control("C10", "Array.__rsub__ calls another operation than Scalar.__rsub__",
+        [(AR, "    def __rsub__(self: SelfT, other: Any) -> SelfT:\n        return self._DoOperation(other, self, \"Subtract\")", "    def __rsub__(self: SelfT, other: Any) -> SelfT:\n        return self._DoOperation(self, other, \"Subtract\")")], "C10.R1")
+control("C10", "generator coerces one operand",
+        [(VG, "        self.p2 = p2\n", "        self.p2 = list(p2) if isinstance(p2, tuple) and isinstance(p1, list) else p2\n")], "C10.R6")
+control("C10", "quantities swap sides in the number arm",
+        [(AR, "            q2 = p2.GetQuantity()\n            q1 = Quantity.CreateEmpty()", "            q1 = p2.GetQuantity()\n            q2 = Quantity.CreateEmpty()")], "C10.R1")
+control("C10", "tuple-of-tuples branch converts to the own unit",
+        [(AR, "                result.append(tuple(Convert(v, unit) for v in elem))", "                result.append(tuple(Convert(v, self.unit) for v in elem))")], "C10.R7")
 # ------------------------------------------------------------------------------------------ running
 def _apply(edits):
     overlay = {}
